@@ -352,6 +352,9 @@ func (v *T) sameFloat(x, y, tol float64) bool {
 		return math.IsNaN(x) && math.IsNaN(y)
 	}
 	if v.ring {
+		if x == y {
+			return true // also equal infinities
+		}
 		d := math.Abs(x - y)
 		m := math.Max(math.Abs(x), math.Abs(y))
 		return d <= tol*math.Max(1, m)
